@@ -20,7 +20,8 @@ VARIANTS = [
     "send() stalls at chosen send indices (slow peer)",
     "protocol 47 play-state Set Compression in mid-stream",
     "350..3000 packets queued in one go",
-    "VarInt-boundary and threshold+-1 sizes"
+    "VarInt-boundary and threshold+-1 sizes",
+    "very compressible packets (3000..70000 equal bytes)"
 ]
 RUNS = {'quick': 9000, 'thorough': 300000}
 WALL_CAP = {'quick': 200, 'thorough': 3300}
@@ -276,6 +277,21 @@ def scenario_for(seed, index, tier):
         sc['variant'] = 'three-cuts'
     else:
         sc['variant'] = 'whole-frames'
+    rz = make_rng('compressible', ID, seed, index)
+    T_ = sc['threshold']
+    if T_ is not None and T_ >= 0 and not sc.get('second') and \
+            sc['variant'] in ('whole-frames', 'random-partition') and \
+            sc['net'].get('max_seg', 1000) >= 64 and rz.random() < 0.25:
+        # very compressible packets (deflate reaches about 1000:1): long
+        # runs of one byte, as in empty chunk sections or padded plugin data
+        known_ = set(ids_for(sc['proto'])['cb.play.known'])
+        for _ in range(rz.choice([1, 2])):
+            uid = rz.choice([i for i in range(0x7F) if i not in known_])
+            body = bytes([rz.choice([0, 0, 0x78, 0xFF])]) * \
+                rz.choice([3000, 6000, 20000, 70000])
+            sc['items'].insert(rz.randrange(len(sc['items']) + 1),
+                               ['unknown', uid, body.hex()])
+        sc['compressible'] = True
     if sc.get('bystander') and (sc['net'].get('cut_plan') or
                                 sc['net'].get('one_byte_reads')):
         # (not next to minute-long stalls or one-byte reads of this
